@@ -9,6 +9,7 @@ import MpirProofs.Lemmas.SwingAsm
 import MpirProofs.Lemmas.Goet
 import MpirProofs.Lemmas.Primorial
 import MpirProofs.Lemmas.NextPrime
+import MpirProofs.Lemmas.SieveUse
 namespace Mpir.Sieve
 open Mpir Mpir.Numth
 
@@ -440,5 +441,32 @@ theorem nextprime_spec_given_exact_tests (mr2 mr23 : ℕ → Bool) (n : ℤ) (hn
     library's first stage) the model, like the library, returns 6794614691 and skips the prime 6794614663. -/
 example : nextprimeModel (fun c => c == 6794614661 || isPrime c) isPrime 6794614660 = some 6794614691 ∧
     isPrime 6794614663 = true ∧ isPrime 6794614661 = false ∧ 47591 * 142771 = 6794614661 := by decide +kernel
+
+/-! ## The users read the real bit array -/
+
+/-- **LOOP_ON_SIEVE_BEGIN … LOOP_ON_SIEVE_END on the array** (rotating `__mask`, `__index += __mask & 1`, do-while on
+    `__i <= __max_i`; oddfac_1.c:76-103 = primorial_ui.c:42-69 = bin_uiui.c:527-554) visits the bits start … max(start,
+    stop) and runs the body for the clear ones with prime = id_to_n (__i): on an array that is right on those bits it is
+    the walk over the primes used by the value-level models.  Consequently, on the array gmp_primesieve (sieve, n)
+    really produces, the array-reading models of mpz_2multiswing_1, mpz_goetgheluck_bin_uiui and mpz_primorial_ui
+    (the ones the driver runs against the library) equal the models the theorems above are about. -/
+theorem sieve_users_on_real_sieve (n : ℕ) (hn : n < B) :
+    (∀ sieve start stop body st, ExactOn sieve start (max start stop) →
+      loopOnSieveArr sieve start stop body st = loopOnSieve start stop body st) ∧
+    (26 ≤ n → ∃ a c, gmp_primesieve n = some (a, c) ∧ multiswingArr a n = mpz_2multiswing_1 n) ∧
+    (∀ k, 25 ≤ n → 2 * k ≤ n → n_to_bit (n - k) < n_to_bit n →
+      ∃ a c, gmp_primesieve n = some (a, c) ∧ goetgheluckArr a n k = n.choose k) ∧
+    (5 ≤ n → ∃ a c, gmp_primesieve n = some (a, c) ∧ primorialArr a n = _root_.primorial n) := by
+  refine ⟨fun sieve start stop body st h => loopOnSieveArr_eq sieve start stop body st h, fun h26 => ?_,
+    fun k h25 hk hl => ?_, fun h5 => ?_⟩
+  · obtain ⟨a, c, e, hex⟩ := gmp_primesieve_exactOn n (by omega) hn
+    exact ⟨a, c, e, multiswingArr_eq a n h26 hn (exactOn_mono hex (nb_mono (by omega)))⟩
+  · obtain ⟨a, c, e, hex⟩ := gmp_primesieve_exactOn n (by omega) hn
+    rw [n_to_bit_eq_nb _ (by omega) (by omega), n_to_bit_eq_nb n (by omega) hn] at hl
+    exact ⟨a, c, e, by rw [goetgheluckArr_eq a n k h25 hn hk hl hex, goetgheluck_eq_choose n k h25 hn hk hl]⟩
+  · obtain ⟨a, c, e, hex⟩ := gmp_primesieve_exactOn n (by omega) hn
+    exact ⟨a, c, e, by rw [primorialArr_eq a n h5 hn hex, mpz_primorial_ui_eq n hn, primorial_eq]⟩
+example : (gmp_primesieve 100).map (fun r => goetgheluckArr r.1 100 40) = some (Nat.choose 100 40) ∧
+    (gmp_primesieve 101).map (fun r => multiswingArr r.1 101) = some (mpz_2multiswing_1 101) := by decide +kernel
 
 end Mpir.Sieve
